@@ -26,6 +26,7 @@ pub struct World {
     pub cfg_timeout: Option<u64>,      // the handler timeout this actor task was configured with (C11)
     pub last_pid: int,                 // ghost registers: the payload / oneshot slot most recently created by this task
     pub last_slot: int,
+    pub reg_evictions: int,            // local: how many LIVE registry entries this task has removed or overwritten so far (C08/C09)
 }
 pub open spec fn emits(pre: &World, post: &World, e: Ev) -> bool {
     *post == World { lc: step(pre.lc, e), trace: pre.trace.push(e), ..*pre }
@@ -47,7 +48,7 @@ pub broadcast axiom fn shared_moved_facts(a: SharedSt, b: SharedSt) requires #[t
         a.locked ==> b.registry == a.registry && b.reg_acq == a.reg_acq;
 pub broadcast group world_axioms { shared_moved_refl, shared_moved_trans, shared_moved_facts }
 pub open spec fn others_ran(pre: &World, post: &World) -> bool {
-    post.lc == pre.lc && post.trace == pre.trace && post.cells =~= pre.cells && shared_moved(sh(pre), sh(post))
+    post.lc == pre.lc && post.trace == pre.trace && post.cells =~= pre.cells && post.reg_evictions == pre.reg_evictions && shared_moved(sh(pre), sh(post))
 }
 // a panic where the statement promises a value instead (units with `panics forbidden`: the join closures, C06/C17)
 #[verifier::external_body]
